@@ -253,6 +253,17 @@ def writeChunk (bytes : List UInt8) (vital : Option (Nat × Bool)) (cap : Nat) (
         | none => .capacity
         | some b2 => .ok b2
 
+/-- `write_chunk` for each chunk of a list in turn, into one buffer (how the connection builds a
+packet payload) -/
+def writeChunkList (cs : List (List UInt8 × Option (Nat × Bool))) (cap : Nat) (acc : List UInt8) :
+    ChunkWriteResult :=
+  match cs with
+  | [] => .ok acc
+  | (d, v) :: rest =>
+    match writeChunk d v cap acc with
+    | .ok acc' => writeChunkList rest cap acc'
+    | r => r
+
 /-! ### reading -/
 
 inductive ReadError where
